@@ -86,6 +86,18 @@ TSlow ==
 TRet ==
   /\ Is("ret") /\ pc[Ev.t] = "done" /\ ret[Ev.t] = Ev.ver
   /\ Finish(Ev.t) /\ Adv /\ UNCHANGED <<pend, wvars>>
+\* available(): begin / outcome events of its one critical section; the outcome event lists the names returned
+TAvailBegin ==
+  /\ Is("names_avail_begin") /\ pc[Ev.t] = "idle" /\ ~lon[Ev.t] /\ CanWrite(nlW, nlR)
+  /\ lbase' = [lbase EXCEPT ![Ev.t] = OnDisk] /\ ltouch' = [ltouch EXCEPT ![Ev.t] = {}]
+  /\ lon' = [lon EXCEPT ![Ev.t] = TRUE]
+  /\ Adv /\ UNCHANGED <<vars, pend, win>>
+TAvail ==
+  /\ Is("names_avail") /\ lon[Ev.t] /\ (Ev.refreshed = 1) = Expired(namesExp)
+  /\ \E X \in SUBSET ltouch[Ev.t] : AvailWith(Ev.t, (lbase[Ev.t] \ ltouch[Ev.t]) \cup X)
+  /\ names' = {n \in Name : Ev.names[n] = 1}
+  /\ lon' = [lon EXCEPT ![Ev.t] = FALSE]
+  /\ Adv /\ UNCHANGED <<pend, win, lbase, ltouch>>
 \* reset: one event when the listing is cleared (under the names lock, with
 \* the zones lock already held), one when the zones are cleared
 TNamesReset ==
@@ -115,7 +127,7 @@ Apply(p) ==
 TTick == /\ Is("tick") /\ clock' = clock + 1 /\ Adv
          /\ UNCHANGED <<disk, names, namesExp, cache, nextVer, zlW, zlR, nlW, nlR, pc, arg, ret, info, ops, seen, how, pend, wvars>>
 
-TNext == TStart \/ TFast \/ TNamesR \/ TNamesWBegin \/ TNamesW \/ TSlowBegin \/ TSlow \/ TRet \/ TNamesReset \/ TReset
+TNext == TStart \/ TFast \/ TNamesR \/ TNamesWBegin \/ TNamesW \/ TAvailBegin \/ TAvail \/ TSlowBegin \/ TSlow \/ TRet \/ TNamesReset \/ TReset
          \/ TEnvStart \/ TEnvEnd \/ TTick \/ (\E p \in pend : Apply(p))
 TSpec == TInit /\ [][TNext]_tvars
 
